@@ -423,6 +423,7 @@ impl World {
             WriteStep::All => offered,
             WriteStep::Accept(n) => n.max(1).min(offered),
             WriteStep::Half => (offered / 2).max(1),
+            WriteStep::AllButOne => offered.saturating_sub(1).max(1),
         };
         if n < offered {
             self.probe_short_write += 1;
